@@ -22,7 +22,8 @@ static int disj(void *a, unsigned long na, void *b, unsigned long nb) {
 '''
 VLA_SIZES = [1, 2, 7, 8, 9, 16, 17]
 ALLOCA_SIZES = [1, 8, 15, 16, 17, 33, 48]
-CONTEXTS = ["plain", "arg", "loop", "two", "push1", "push2", "push3", "vla2d", "vla_sub", "vla_ptrdiff", "sizeof_once", "struct_elem"]
+CONTEXTS = ["plain", "arg", "loop", "two", "push1", "push2", "push3", "vla2d", "vla_sub", "vla_ptrdiff", "sizeof_once", "struct_elem",
+            "td_if", "td_switch", "td_goto", "td_loop", "td_elem", "typeof_if", "td_once", "typeof_once"]
 
 
 def cases():
@@ -31,7 +32,7 @@ def cases():
         for c in CONTEXTS:
             if kind == "vla" and c in ("arg", "push1", "push2", "push3"):
                 continue                      # a VLA is a declaration, it cannot sit inside an expression
-            if kind == "alloca" and c in ("vla2d", "vla_sub", "vla_ptrdiff", "sizeof_once", "struct_elem"):
+            if kind == "alloca" and (c in ("vla2d", "vla_sub", "vla_ptrdiff", "sizeof_once", "struct_elem") or c.startswith(("td_", "typeof_"))):
                 continue
             for n in (sizes if c != "vla_ptrdiff" else [7]):
                 for m in ((1, 17) if c in ("two", "vla2d") else (1, 3, 17) if c in ("vla_sub", "vla_ptrdiff") else (0,)):
@@ -90,6 +91,40 @@ def render_blk(i, c):
               " (&a[n - 1] - (n - 1))[0][m - 1] = 88; ok = ok && a[0][m - 1] == 88; (end - n)[n - 1][0] = 99; ok = ok && a[n - 1][0] == 99;",
               " ok = ok && chk(b, 16, 50) && chk(loc, 24, 5);",
               " al = AL(a, 4); dj = disj(a, sizeof a, b, 16) && disj(a, sizeof a, loc, 24);"]
+    elif cx.startswith(("td_", "typeof_")):
+        # a variably modified type named by a typedef (or typeof) and used by several declarations of which the
+        # textually first is NOT executed: every array still has its own n elements (size fixed where the typedef
+        # / the original declaration is reached, C11 6.7.8p3), sizeof agrees, it overlaps nothing, contents survive
+        S = 4 * n
+
+        def epi(v, tag, sz=S):
+            return ("r += sizeof %s; use((char *)%s, %d, %d); l1 += id(0); ok = ok && chk((char *)%s, %d, %d) && chk(b, 16, 50) && chk(loc, 24, 5)"
+                    " && l1 == 0x1111; dj = dj && disj(%s, %d, b, 16) && disj(%s, %d, loc, 24) && disj(%s, %d, (void *)&n, 4)"
+                    " && disj(%s, %d, (void *)&l1, 8) && disj(%s, %d, (void *)&z, 4); al = al && AL(%s, 4);"
+                    % (v, v, sz, tag, v, sz, tag, v, sz, v, sz, v, sz, v, sz, v, sz, v))
+        f += [" char *b = alloca(16); use(b, 16, 50); volatile int z = 0;"]
+        if cx == "td_if":
+            f += [" typedef int T[n]; if (z) { T a; %s } else { T c; %s } e = %d;" % (epi("a", 7), epi("c", 9), S)]
+        elif cx == "typeof_if":
+            f += [" int base[n]; %s if (z) { __typeof__(base) a; %s } else { __typeof__(base) c; %s } ok = ok && chk((char *)base, %d, 3); e = %d;"
+                  % (epi("base", 3), epi("a", 7), epi("c", 9), S, 2 * S)]
+        elif cx == "td_switch":
+            f += [" typedef int T[n]; switch (z + 1) { case 0: { T a; %s } break; case 1: { T c; %s } break; default: { T d; %s } } e = %d;"
+                  % (epi("a", 7), epi("c", 9), epi("d", 11), S)]
+        elif cx == "td_goto":
+            f += [" typedef int T[n]; if (!z) goto skip%d; { T a; %s } skip%d:; { T c; %s } e = %d;" % (i, epi("a", 7), i, epi("c", 9), S)]
+        elif cx == "td_loop":
+            f += [" typedef int T[n]; for (int it = 0; it < 3; it++) { if (it == 5) { T a; %s } else if (it != 1) { T c; %s } else { T d; %s } } e = %d;"
+                  % (epi("a", 7), epi("c", 9), epi("d", 11), 3 * S)]
+        elif cx == "td_elem":
+            f += [" typedef int Row[n]; if (z) { Row r0; %s } volatile int rows = 3; Row x[rows]; %s"
+                  " ok = ok && (char *)&x[1] - (char *)&x[0] == %d && sizeof x[0] == %d && (char *)&x[2][n - 1] - (char *)x == %d; e = %d;"
+                  % (epi("r0", 7), epi("x", 9, 3 * S), S, S, 3 * S - 4, 3 * S)]
+        elif cx == "td_once":
+            # the size expression is evaluated when the typedef is reached, not at each use
+            f += [" int k = n; typedef int T[k]; k = 99; T a; %s e = %d;" % (epi("a", 7), S)]
+        elif cx == "typeof_once":
+            f += [" int k = n; int base[k]; k = 99; __typeof__(base) a; %s e = %d;" % (epi("a", 7), S)]
     elif cx == "vla_ptrdiff":
         # the difference of two pointers to rows counts rows (6.5.6p9)
         f += [" int a[n][m]; int (*end)[m] = a + n; a[0][0] = 1;",
